@@ -386,6 +386,23 @@ def conc_nego(ctx, case, idx, body, reply):
         s = H.serve(H.mk_request('POST', '/svc/x', hl, body), list(enabled), (0, 5)[idx % 2], reply)
         res, val, rh = H.read_response(s.raw_response)
         rec('server', enabled, text, rh.get('content-encoding', 'none'), s.res == 'ok' and res == 'body' and val == reply)
+    # the same, as SECOND request of a keep-alive connection whose first request accepted every coding the server offers:
+    # what is acceptable is decided per request, not per connection
+    for style, enabled in [c for c in combos if c[1]][:2]:
+        if (style == 3 and not any(e['tok'] not in ('*',) for e in hdr)):
+            continue
+        text = header_text(hdr, style)
+        first = H.mk_request('POST', '/svc/x', [('Content-Length', str(len(body))),
+                                                 ('Accept-Encoding', ', '.join(enabled))], body)
+        hl = [('Content-Length', str(len(body)))] + ([('Accept-Encoding', text)] if text is not None else [])
+        s = H.serve(first + H.mk_request('POST', '/svc/x', hl, body), list(enabled), (0, 5)[idx % 2], reply)
+        try:
+            second = H.rest_after_first_response(s.raw_response)
+        except Exception as ex:  # noqa: BLE001
+            raise MachineryError(f'cannot split the responses of a keep-alive connection: {ex!r}') from ex
+        res, val, rh = H.read_response(second)
+        rec('server_keepalive', enabled, text, rh.get('content-encoding', 'none'),
+            s.res == 'ok' and res == 'body' and val == reply)
     # the provider sends a notification to a subscriber that sent the header with its Subscribe request
     combos = [((idx + k) % N_STYLES, e) for k, e in enumerate(usable) if full or (idx + k) % 2 == 0 or not e]
     for style, enabled in combos:
